@@ -109,11 +109,15 @@ pub async fn spawn_process<P: Process>(
         };
 
         process.terminate().await;
+        #[cfg(feature = "verif-hooks")]
+        edp_client::verif::yield_point("proc:exit:before_propagate").await;
 
         if let Err(e) = propagate_exit_signals(&handle_clone, &registry, exit_reason).await {
             tracing::error!("Failed to propagate exit signals for {}: {}", pid, e);
         }
 
+        #[cfg(feature = "verif-hooks")]
+        edp_client::verif::yield_point("proc:exit:before_registry_remove").await;
         registry.remove(&pid).await;
     });
 
@@ -137,6 +141,8 @@ async fn propagate_exit_signals(
         }
     }
 
+    #[cfg(feature = "verif-hooks")]
+    edp_client::verif::yield_point("proc:exit:between_links_and_monitors").await;
     let monitors = handle.get_monitors().await;
     for (monitoring_pid, reference) in monitors {
         if let Some(monitoring_handle) = registry.get(&monitoring_pid).await {
